@@ -4,6 +4,6 @@ Extraction Language OCaml.
 Extraction "model.ml"
   xb_zadd xb_zmul xb_zdiv xb_zmod xb_zopp xb_zltb xb_nadd xb_nmul xb_ndiv xb_nmod xb_z_of_n xb_n_of_z xb_n_of_nat xb_nat_of_n xb_keep
   r_init feed nonce_inc nonce_add
-  udp_parse udp_total accepts session_in u_run u_init u_step
+  udp_parse udp_total accepts session_in u_run u_init u_step u_next u_q
   meta_parse_c meta_marshal_c le_len_c
   LowEntropy.decode.
